@@ -48,6 +48,10 @@ ASSUMPTIONS = [
     "in-place modification of any other input value is reported as an error', quantifier: "
     "'under the sequential and pool workers'); such cases carry their own signature",
     "a copy-mode shell task that modifies its private copy may or may not raise (left open)",
+    "an identity mismatch (job directory name != checksum computed before the run) is reported "
+    "only when it recurs on an immediate re-execution of the same case; a single non-reproducible "
+    "mismatch for an unmodified value was seen once in ~3400 cf cases (cause unknown, identity "
+    "determinism is C06/C07 territory)",
 ]
 SHARDS = {"quick": 16, "thorough": 16}
 EXHAUSTIVE_WHEN_COMPLETED = True
@@ -125,7 +129,22 @@ def _target_kind(value, path):
     return spec[0]
 
 
+IDENTITY_SIGS = ("job-directory-under-other-identity", "no-result-under-original-identity")
+
+
 def check_case(case):
+    """The identity records are kept only when they recur on an immediate second execution of
+    the same case: a defect of the property's mechanism (identity taken after the body ran,
+    result saved elsewhere) is deterministic, whereas a one-off disagreement between two
+    computations of the identity of equal inputs belongs to C06/C07 (identity determinism)."""
+    recs = _check_once(case)
+    if any(r["signature"] in IDENTITY_SIGS for r in recs):
+        again = {r["signature"] for r in _check_once(case)}
+        recs = [r for r in recs if r["signature"] not in IDENTITY_SIGS or r["signature"] in again]
+    return recs
+
+
+def _check_once(case):
     from vlib import tasks_cachehist as T
     from vlib.gen import values as V
     from vlib.tasks_cachehist import read_lines
@@ -190,8 +209,13 @@ def check_case(case):
 
         if runs != 1:
             # the body must have been entered exactly once for the observations to mean anything
-            recs.append(dict(signature=f"body-executed-{runs}-times", observed=runs, expected=1,
-                             detail=where + (f"; raised {short(raised)}" if raised else "")))
+            if runs == 0 and raised is not None:
+                # a valid submission was rejected before the body ran
+                sig = exception_signature(raised, "valid-input-rejected-before-body")
+            else:
+                sig = f"body-executed-{runs}-times"
+            recs.append(dict(signature=sig, observed=short(raised) if raised else runs,
+                             expected="body executed once", detail=where))
             return recs
         if is_file:
             now = fpath.read_bytes()
